@@ -33,6 +33,52 @@ def top_of(u):
     return u
 
 
+def r07_5(run):
+    """closed/failed circuits are gone: in circuit_closed / circuit_failed the removal lies after code that
+    extracts the reason; every helper of the package called before the removal must be total (the
+    event dispatcher logs and swallows an exception, and the circuit would stay listed for ever)."""
+    ts = TS(run)
+    k = 0
+    for name in ('circuit_closed', 'circuit_failed'):
+        u = run.idx.find_method(ts, name)
+        if u is None:
+            raise AnchorVanished('TorState.' + name)
+        g = cfg_of(u)
+        dn = g.nodes_where(lambda n: any(is_call_to(a, 'self.circuit_destroy') or isinstance(a, ast.Delete) for a in node_asts(n)))
+        run.ob('R07.5', u, u.node, '%s removes the circuit' % name, bool(dn), slot='removes:%s' % name, message='%s no longer reaches circuit_destroy' % name)
+        for a, what in partial_sites(u):
+            run.ob('R07.5', u, a, 'no partial operation before the removal', False, slot='partial@%s' % name, message='%s: %s; the circuit then stays listed' % (name, what))
+        for tgt, node, kind in resolve_refs(run.idx, u):
+            if kind != 'call' or tgt.owner_cls is not None:
+                continue
+            k += 1
+            ps = partial_sites(tgt)
+            run.ob('R07.5', tgt, ps[0][0] if ps else tgt.node, 'helper %s called before the removal is total' % tgt.short, not ps, slot='partial@%s' % tgt.short,
+                   message='%s (called by %s before the circuit is removed): %s; the dispatcher swallows the exception and the circuit stays listed'
+                   % (tgt.short, name, ps[0][1] if ps else ''))
+    run.floor('R07.5', 'package helpers called before the removal', k, 2)
+
+
+def event_reaches_update(run, rid):
+    """every CIRC line reaches its Circuit's update(); a stream created for a line is updated from it"""
+    su = TU(run, '_stream_update')
+    g = cfg_of(su)
+    mk = g.nodes_where(lambda n: n.kind == 'stmt' and isinstance(n.ast, ast.Assign) and isinstance(n.ast.value, ast.Call)
+                       and dotted(n.ast.value.func) == 'self.stream_factory')
+    # every event line reaches the object's update()
+    cu = TU(run, '_circuit_update')
+    g = cfg_of(cu)
+    un = g.nodes_where(lambda n: any(is_method_call(a, 'update') for a in node_asts(n)))
+    r = g.reachable([g.entry], avoid=lambda n: n in un)
+    run.ob(rid, cu, cu.node, 'every CIRC line updates its circuit', bool(un) and not any(e in r for e in g.normal_exits()), slot='update:circuit',
+           message='_circuit_update can return without calling update()')
+    g = cfg_of(su)
+    un = g.nodes_where(lambda n: any(is_method_call(a, 'update') for a in node_asts(n)))
+    for m in mk:
+        esc = g.escapes(m, lambda n: n in un, exits=g.normal_exits())
+        run.ob(rid, su, su.node, 'a newly created stream is updated from the event', not esc, slot='update:stream', message='_stream_update creates a stream without update()')
+
+
 def r07_1(run):
     ts = TS(run)
     allowed = {
@@ -116,18 +162,7 @@ def r07_1(run):
     ok = bool(mk) and all(not g.escapes(m, lambda n: n in ls, exits=g.normal_exits()) for m in mk)
     run.ob('R07.1', su, su.node, 'TorState listens to every stream it creates', ok, slot='self-listen:stream',
            message='_stream_update creates a stream without stream.listen(self)')
-    # every event line reaches the object's update()
-    cu = TU(run, '_circuit_update')
-    g = cfg_of(cu)
-    un = g.nodes_where(lambda n: any(is_method_call(a, 'update') for a in node_asts(n)))
-    r = g.reachable([g.entry], avoid=lambda n: n in un)
-    run.ob('R07.1', cu, cu.node, 'every CIRC line updates its circuit', bool(un) and not any(e in r for e in g.normal_exits()), slot='update:circuit',
-           message='_circuit_update can return without calling update()')
-    g = cfg_of(su)
-    un = g.nodes_where(lambda n: any(is_method_call(a, 'update') for a in node_asts(n)))
-    for m in mk:
-        esc = g.escapes(m, lambda n: n in un, exits=g.normal_exits())
-        run.ob('R07.1', su, su.node, 'a newly created stream is updated from the event', not esc, slot='update:stream', message='_stream_update creates a stream without update()')
+    event_reaches_update(run, 'R07.1')
     for c in [c for c in calls_in(su) if callee_attr(c) == 'update']:
         r_ = receiver(c)
         ok = isinstance(r_, ast.Subscript) and dotted(r_.value) == 'self.streams' or dotted(r_) == 'stream'
@@ -329,6 +364,29 @@ def r07_4(run):
                         vv = d[1] if d and d[0] == 'expr' else v
                     ok2 = isinstance(vv, ast.Call) and (dotted(vv.func) or '').endswith('find_keywords') and vv.args and dotted(vv.args[0]) == p
                     run.ob('R07.4', up, n.ast, '%s := find_keywords(event)' % field, ok2, slot='%s:%s:value' % (name, field), message='%s assigned %s' % (field, src(vv)))
+    # latest wins: a field copied from an event keyword is not conditioned on the field's own current value
+    # (instances on today's tree: Circuit.purpose, Circuit.build_flags)
+    cu0 = run.idx.find_method(circuit_cls(run), 'update')
+    g0 = cfg_of(cu0)
+    kws = names_defined_by(cu0, lambda v: isinstance(v, ast.Call) and (dotted(v.func) or '').endswith('find_keywords'))
+    klw = 0
+    for n in g0.real_nodes():
+        if n.kind != 'stmt' or not isinstance(n.ast, ast.Assign):
+            continue
+        for t in n.ast.targets:
+            d = dotted(t)
+            if not d or not d.startswith('self.') or d in ('self.flags', 'self.state'):
+                continue
+            if not any(isinstance(x, ast.Subscript) and dotted(x.value) in kws and isinstance(const(x.slice), str) for x in ast.walk(n.ast.value)):
+                continue
+            if d == 'self.time_created':
+                continue    # creation time is fixed by definition
+            klw += 1
+            bad = [tt for tt, lab in g0.guarded_by(n, lambda t_: mentions(t_, d))]
+            run.ob('R07.4', cu0, n.ast, '%s follows the latest event that carries it' % d, not bad, slot='latest-wins:%s' % d,
+                   message='Circuit.update assigns %s only under %s: the first value sticks and later events (e.g. a purpose change) are ignored'
+                   % (d, src(bad[0].ast) if bad else ''))
+    run.floor('R07.4', 'Circuit fields copied from event keywords', klw, 2)
     # a stream learns its target from the first event that can carry it (instances confirmed on
     # today's tree: NEW, NEWRESOLVE, SUCCEEDED - the latter for streams first seen in a snapshot)
     su = run.idx.find_method(stream_cls(run), 'update')
@@ -382,6 +440,7 @@ def r07_4(run):
 
 RULES = [
     ('R07.1', 'index maintenance: circuits/streams written only by the listener callbacks keyed by .id; closed/failed reach circuit_destroy; TorState listens to and updates everything it creates', r07_1),
+    ('R07.5', 'totality: helpers called by circuit_closed/circuit_failed before the removal cannot raise (KeyError behind handler or membership test, str-method arity)', r07_5),
     ('R07.2', 'abstract interpretation of Stream.update over (circuit None/Some, listed/unlisted) x every stream state x both invariant states, normal and exceptional exits; who-writes', r07_2),
     ('R07.4', 'status/flags assigned unconditionally from the event; circuit path cleared/recomputed/kept per state', r07_4),
 ]
@@ -391,6 +450,8 @@ RULES.insert(2, ('R07.3', 'after CLOSED/FAILED/DETACHED the stream is under no c
 from ..selftest import M  # noqa: E402
 FS, FT, FC = 'txtorcon/stream.py', 'txtorcon/torstate.py', 'txtorcon/circuit.py'
 MUTANTS = [
+    M('purpose-first-wins', 'txtorcon/circuit.py', "        if 'PURPOSE' in kw:", "        if self.purpose is None and 'PURPOSE' in kw:", ['R07.4']),
+    M('reason-join-arity', 'txtorcon/circuit.py', "reason = '{}, {}'.format(reason, kw['REMOTE_REASON'])", "reason = ', '.join(reason, kw['REMOTE_REASON'])", ['R07.5']),
     M('stream_failed-keeps', FT, "        txtorlog.msg(\"stream_failed\", stream.id)\n        del self.streams[stream.id]\n", "        txtorlog.msg(\"stream_failed\", stream.id)\n", ['R07.1']),
     M('no-self-listen', FT, "            self.streams[stream_id] = stream\n            stream.listen(self)\n", "            self.streams[stream_id] = stream\n", ['R07.1']),
     M('circuit_failed-no-destroy', FT, "                CircuitBuildFailedError(_extract_reason(kw))\n            )\n        )\n        self.circuit_destroy(circuit)\n", "                CircuitBuildFailedError(_extract_reason(kw))\n            )\n        )\n", ['R07.1']),
